@@ -200,7 +200,8 @@ var oraclesOf = map[string][]string{
 }
 
 func (ex *Exec) on(oracle string) bool {
-	if oracle == "harness" {
+	if oracle == "harness" || oracle == "never-blocks-forever" {
+		// (blocked-forever / livelock: no call may fail to return, in any profile)
 		return true
 	}
 	for _, o := range oraclesOf[ex.cfg.Profile] {
@@ -508,7 +509,10 @@ func (ex *Exec) Run() (v *Violation, harnessErr string) {
 			if ex.liveness {
 				ex.violate("bounded-progress", "step-budget", "step budget exhausted: %s", res.Detail)
 			} else {
-				return nil, "step budget exhausted: " + res.Detail
+				// every plan is finite and every API call of the unchanged tree ends
+				// within a few hundred scheduler steps: 20000 resumes without the plan
+				// ending is a call that spins (e.g. a retry loop that never succeeds)
+				ex.violate("never-blocks-forever", "livelock:"+deadlockClass(res.Detail), "an API call never returned (step budget of the run exhausted while it kept passing its own yield points): %s", res.Detail)
 			}
 		}
 		break
